@@ -13,6 +13,7 @@ import hashlib
 import itertools
 import os
 import random
+import signal
 import traceback
 from copy import deepcopy
 
@@ -870,13 +871,31 @@ def run_case(spec):
     return {'term': term, 'facts': facts, 'detail': detail, 'pieces': pieces, 'strs': dict(_STRS)}
 
 
+class Hang(BaseException):
+    pass
+
+
+def _alarm(signum, frame):
+    raise Hang()
+
+
+CASE_TIMEOUT = 60       # seconds; an operator call takes milliseconds
+
+
 def run_case_safe(spec):
+    old = signal.signal(signal.SIGALRM, _alarm)
+    signal.alarm(CASE_TIMEOUT)
     try:
         r = run_case(spec)
         r['spec'] = spec
         return r
+    except Hang:
+        return {'hang': True, 'spec': spec}
     except Exception as ex:       # the harness could not drive the implementation on this case
         return {'error': '%s: %s\n%s' % (type(ex).__name__, ex, traceback.format_exc()[-1500:]), 'spec': spec}
+    finally:
+        signal.alarm(0)
+        signal.signal(signal.SIGALRM, old)
 
 
 # ----------------------------------------------------------------------------------------
@@ -1001,6 +1020,12 @@ def gen_specs(ctx):
 def evaluate(ctx, results, group_prefix=''):
     by_op = {'mutation': [], 'crossover': []}
     for res in results:
+        if 'hang' in res:
+            g = group_prefix + res['spec']['cfg']['op']
+            ctx.count(g, key=repr(res['spec']), nontrivial=True, stream=res['spec'].get('stream'), raised='hang')
+            ctx.violate(g, {'spec': res['spec']}, 'the operator did not return within %d s on a population of valid '
+                        'individuals' % CASE_TIMEOUT, finding_key='C02.operator-hangs')
+            continue
         if 'error' in res:
             ctx.error('driver', res['error'] + '\nspec: %r' % (res['spec'],))
             continue
